@@ -73,6 +73,8 @@ pub struct PSim {
     /// ordinals (1-based, among the handle's waitpid calls of the scenario) that fail with EINTR
     pub eintr_at: Vec<u64>,
     pub nwaitpid: u64,
+    /// virtual time that passes with every clock reading (time goes by while the library runs)
+    pub clock_step: u64,
 }
 
 pub static mut PSIM: Option<Box<PSim>> = None;
@@ -115,6 +117,7 @@ impl PSim {
             script_drift: false,
             eintr_at: vec![],
             nwaitpid: 0,
+            clock_step: 0,
         }
     }
 
@@ -434,6 +437,11 @@ unsafe fn h_clock_gettime(clk: libc::clockid_t, ts: *mut libc::timespec) -> Opti
     let t = s.epoch + s.now;
     (*ts).tv_sec = (t / 1_000_000_000) as libc::time_t;
     (*ts).tv_nsec = (t % 1_000_000_000) as libc::c_long;
+    if s.clock_step > 0 {
+        let to = s.now + s.clock_step;
+        s.advance(to);
+        s.log(json!({"e":"delay","now":tpair(s.now)}));
+    }
     Some(0)
 }
 unsafe fn h_clock_nanosleep(
